@@ -67,6 +67,28 @@ def _stats(runs: list[dict]) -> dict:
                     c["snapshots_after_refusal"] += 1
             if e["e"] == "lsc" and e["v"]:
                 c["lsc_true"] += 1
+            if e["e"] == "report":
+                c["reports"] += 1
+                rep = e["rep"]
+                if rep.get("bestzero"):
+                    c["reports_best_is_zero"] += 1
+                if any(d["me"] == 0 and d["id"] != "root" for d in e["snap"]["demes"]):
+                    c["reports_with_fresh_deme"] += 1
+                if any(d["hib"] for d in e["snap"]["demes"]):
+                    c["reports_with_hibernating_deme"] += 1
+                if any(not d["act"] for d in e["snap"]["demes"]):
+                    c["reports_with_stopped_deme"] += 1
+            if e["e"] == "dump":
+                c["dumps"] += 1
+                c["dump_at_mc=%d" % e["snap"]["mc"]] += 1
+                if any(d["cls"] == "CMADeme" and d["act"] for d in e["snap"]["demes"]):
+                    c["dumps_with_live_cma"] += 1
+                if any(d["hib"] for d in e["snap"]["demes"]):
+                    c["dumps_with_hibernating_deme"] += 1
+                for d in e["snap"]["demes"]:
+                    c["dump_has:" + d["cls"]] += 1
+        if r.get("dump_event") is not None:
+            c["loaded_continuations"] += 1
         c["status:" + r["status"]] += 1
     return dict(c)
 
